@@ -322,10 +322,10 @@ class Builder(object):
 # ---------------------------------------------------------------------------------------------
 
 class ModuleCtx(object):
-    def __init__(self, main_file, consts_file=None):
+    def __init__(self, main_file, consts_file=None, extra_files=()):
         self.main = main_file
         self.consts = consts_file
-        self.files = [f for f in (main_file, consts_file) if f is not None]
+        self.files = [f for f in (main_file, consts_file) if f is not None] + list(extra_files)
         self.structs = {}
         for f in self.files:
             for it in f.walk():
@@ -382,7 +382,7 @@ class ModuleCtx(object):
         self._struct_field_ty[name] = ty
         return ty
 
-    def find_impl_member(self, ty_name, member, trait=False, kinds=('fn',)):
+    def find_impl_member(self, ty_name, member, trait=False, kinds=('fn',), trait_arg=None, self_ref=None):
         """locate member `member` in an impl of `ty_name`.  trait=False: any impl, inherent first;
         trait=None: inherent only; trait='Name': that trait."""
         found = []
@@ -393,6 +393,10 @@ class ModuleCtx(object):
                 if trait is None and imp.trait is not None:
                     continue
                 if trait not in (None, False) and imp.trait != trait:
+                    continue
+                if trait_arg is not None and imp.trait_arg != trait_arg:
+                    continue
+                if self_ref is not None and imp.self_ref != self_ref:
                     continue
                 for ch in imp.children:
                     if ch.kind in kinds and ch.name == member and not ch.is_test:
@@ -465,7 +469,8 @@ def _match(toks, i):
 
 class ItemSpec(object):
     def __init__(self, name, root, trait=None, expect=None, opaque=(), loop_once=False,
-                 empty_prelude=False, havoc_calls=(), same_as=None, toplevel=False, note=None):
+                 empty_prelude=False, havoc_calls=(), same_as=None, toplevel=False, note=None,
+                 trait_arg=None, self_ref=None, fixed_args=None):
         self.name = name
         self.root = root            # fn name
         self.trait = trait          # None: inherent impl; 'Add' ...: trait impl
@@ -477,6 +482,9 @@ class ItemSpec(object):
         self.same_as = same_as
         self.toplevel = toplevel    # file-level fn instead of impl member
         self.note = note
+        self.trait_arg = trait_arg  # impl Trait<Arg> disambiguation
+        self.self_ref = self_ref    # impl .. for &T (True) / for T (False)
+        self.fixed_args = fixed_args or {}   # parameter name -> python callable(translator) giving its value
 
 
 class Translator(object):
@@ -736,7 +744,10 @@ class Translator(object):
 
     # -- evaluation ----------------------------------------------------------------------------
     def eval(self, e, env):
-        return getattr(self, 'ev_' + e[0])(e, env)
+        m = getattr(self, 'ev_' + e[0], None)
+        if m is None:
+            raise TransErr('expression kind `%s` is outside the supported subset' % e[0], e[1])
+        return m(e, env)
 
     def ev_int(self, e, env):
         suf = e[3]
@@ -960,9 +971,14 @@ class Translator(object):
             raise TransErr('closure called with wrong number of arguments', line)
         env = Env(c.env)
         for (pat, ty), a in zip(c.params, args):
-            v = self.materialize(a)
-            if ty is not None:
-                v = self.coerce(v, ty, env, line)
+            if ty is not None and ty[0] == 'tref' and ty[2]:
+                if not isinstance(a, (Arr, Struct)):
+                    raise TransErr('&mut closure parameter of scalar type is outside the supported subset', line)
+                v = self.coerce(a, ty, env, line)
+            else:
+                v = self.materialize(a)
+                if ty is not None:
+                    v = self.coerce(v, ty, env, line)
             self.bind_pat(pat, v, env)
         self.depth += 1
         try:
@@ -1250,9 +1266,14 @@ class Translator(object):
     def ev_repeat(self, e, env):
         x = self.eval(e[2], env)
         n = self.const_of(self.eval(e[3], env), e[1], 'array length')
-        if not isinstance(x, Int) or x.e[0] != 'c':
-            raise TransErr('array repeat of a non-constant element', e[1])
-        return Arr([x for _ in range(n)])
+        if isinstance(x, Int) and x.e[0] == 'c':
+            return Arr([x for _ in range(n)])
+        if isinstance(x, (Struct, Arr)) and len(self.b.stmts) >= 0:
+            flat = []
+            flatten(x, flat, e[1])
+            if all(y.e[0] == 'c' for y in flat):
+                return Arr([self.materialize(x) for _ in range(n)])
+        raise TransErr('array repeat of a non-constant element', e[1])
 
     def ev_tuple(self, e, env):
         return Tup([self.eval(x, env) for x in e[2]])
@@ -1323,7 +1344,7 @@ class Translator(object):
             self.bind_pat(pat, v, env)
         elif k == 'expr':
             self.eval(st[2], env)
-        elif k in ('fn', 'const'):
+        elif k in ('fn', 'const', 'use'):
             pass
         else:
             raise TransErr('unsupported statement', st[1])
@@ -1516,6 +1537,8 @@ class Translator(object):
         for pat, ty in decl.params:
             if pat[0] == 'pid' and pat[2] in self.spec.opaque:
                 args.append(Opaque(pat[2]))
+            elif pat[0] == 'pid' and pat[2] in self.spec.fixed_args:
+                args.append(self.spec.fixed_args[pat[2]](self))
             else:
                 args.append(self.make_input(ty, env0, ln))
         r = self.call_decl(decl, item, self_val, args, fenv, self_ty, ln)
@@ -1531,7 +1554,7 @@ class Translator(object):
         else:
             raise TransErr('function has neither a return value nor &mut self', ln)
         flat = []
-        flatten(out, flat, ln)
+        self.flatten_value(out, flat, ln)
         outs = []
         for x in flat:
             if x.ty is None or x.ty == 'usize':
@@ -1540,7 +1563,14 @@ class Translator(object):
                 x = Int(self.b.emit_set(x.e), x.ty)
             outs.append(x.e)
         nin, body, outs = self.b.finalize(outs)
+        nin, body, outs = self.post_process(nin, body, outs)
         return nin, body, outs, [x.ty for x in flat]
+
+    def flatten_value(self, v, out, ln):
+        flatten(v, out, ln)
+
+    def post_process(self, nin, body, outs):
+        return nin, body, outs
 
 
 def flatten(v, out, ln):
